@@ -250,23 +250,24 @@ Proof.
 Qed.
 
 (* ---------------------------------------------------------------- PGA-APP with setters *)
-Definition pga_inv (A : nat) (qm : mat) (st : pga_st) : Prop :=
-  0 <= ps_lr st /\ 0 <= ps_pl st /\ length (ps_rows st) = length qm /\ Forall (prow_ok A) (ps_rows st).
+Definition pga_inv (A : nat) (st : pga_st) : Prop :=
+  0 <= ps_lr st /\ 0 <= ps_pl st /\ Forall (fun r => length r = A) (ps_q st) /\
+  length (ps_rows st) = length (ps_q st) /\ Forall (prow_ok A) (ps_rows st).
 
-Lemma pga_apply_inv : forall A qm st op, (1 <= A)%nat -> Forall (fun r => length r = A) qm ->
-  pga_inv A qm st -> pga_inv A qm (pga_apply qm st op).
+Lemma pga_apply_inv : forall A st op, (1 <= A)%nat -> pga_inv A st -> pga_inv A (pga_apply st op).
 Proof.
-  intros A qm st op HA Hqm [Hlr [Hpl [Hl Hok]]].
-  destruct op as [s|x|x]; cbn [pga_apply].
-  - unfold pga_inv. cbn [ps_lr ps_pl ps_rows]. split; [exact Hlr|]. split; [exact Hpl|].
+  intros A st op HA [Hlr [Hpl [Hqm [Hl Hok]]]].
+  destruct op as [s|x|x|s a v]; cbn [pga_apply].
+  - unfold pga_inv. cbn [ps_lr ps_pl ps_q ps_rows]. split; [exact Hlr|]. split; [exact Hpl|]. split; [exact Hqm|].
     unfold pga_step. split; [rewrite upd_vrow_length; exact Hl|].
     apply upd_vrow_forall; [exact Hok|]. intros r [Hr _] Hs.
     apply pga_step_row_ok; [exact HA| | exact Hr].
     rewrite Hl in Hs. unfold row. apply (proj1 (Forall_forall _ _) Hqm). apply nth_In. exact Hs.
-  - unfold neg_throws. destruct (Qlt_le_dec x 0); [repeat split; assumption|].
-    unfold pga_inv. cbn [ps_lr ps_pl ps_rows]. repeat split; assumption.
-  - unfold neg_throws. destruct (Qlt_le_dec x 0); [repeat split; assumption|].
-    unfold pga_inv. cbn [ps_lr ps_pl ps_rows]. repeat split; assumption.
+  - unfold neg_throws. destruct (Qlt_le_dec x 0); unfold pga_inv; cbn [ps_lr ps_pl ps_q ps_rows]; repeat split; assumption.
+  - unfold neg_throws. destruct (Qlt_le_dec x 0); unfold pga_inv; cbn [ps_lr ps_pl ps_q ps_rows]; repeat split; assumption.
+  - unfold pga_inv. cbn [ps_lr ps_pl ps_q ps_rows]. split; [exact Hlr|]. split; [exact Hpl|].
+    split; [| split; [rewrite upd_vrow_length; exact Hl| exact Hok]].
+    apply upd_vrow_forall; [exact Hqm|]. intros r Hr _. rewrite set_nth_length. exact Hr.
 Qed.
 
 Lemma pgaapp_rows_dist_setters_lemma : forall lr pl qm A ops, (1 <= A)%nat -> 0 <= lr -> 0 <= pl ->
@@ -276,13 +277,43 @@ Lemma pgaapp_rows_dist_setters_lemma : forall lr pl qm A ops, (1 <= A)%nat -> 0 
   Forall (fun r => length r = A /\ is_dist_tol epsS r) (ps_rows (pga_exec lr pl qm A ops)).
 Proof.
   intros lr pl qm A ops HA Hlr Hpl Hqm.
-  assert (H : pga_inv A qm (pga_exec lr pl qm A ops)).
-  { unfold pga_exec. apply (fold_left_inv _ _ (pga_apply qm) (pga_inv A qm) (fun _ => True)).
-    - intros s op Hs _. apply pga_apply_inv; assumption.
-    - unfold pga_inv. cbn [ps_lr ps_pl ps_rows]. repeat split; try assumption; [apply repeat_length|].
+  assert (H : pga_inv A (pga_exec lr pl qm A ops) /\ length (ps_q (pga_exec lr pl qm A ops)) = length qm).
+  { unfold pga_exec.
+    apply (fold_left_inv _ _ pga_apply (fun st => pga_inv A st /\ length (ps_q st) = length qm) (fun _ => True)).
+    - intros s op [Hs Hlq] _. split; [apply pga_apply_inv; assumption|].
+      destruct op as [s0|x|x|s0 a v]; cbn [pga_apply]; try exact Hlq.
+      + unfold neg_throws. destruct (Qlt_le_dec x 0); exact Hlq.
+      + unfold neg_throws. destruct (Qlt_le_dec x 0); exact Hlq.
+      + cbn [ps_q]. rewrite upd_vrow_length. exact Hlq.
+    - split; [| reflexivity]. unfold pga_inv. cbn [ps_lr ps_pl ps_q ps_rows].
+      split; [exact Hlr|]. split; [exact Hpl|]. split; [exact Hqm|]. split; [apply repeat_length|].
       apply Forall_forall. intros r Hr. apply repeat_spec in Hr. subst. apply uniform_row_ok. exact HA.
     - apply Forall_forall. intros; exact I. }
-  exact H.
+  destruct H as [[G1 [G2 [_ [G4 G5]]]] Hlq]. split; [exact G1|]. split; [exact G2|].
+  split; [rewrite G4; exact Hlq| exact G5].
+Qed.
+
+(* ---------------------------------------------------------------- MDP::Policy from a matrix *)
+Lemma policy_ctor_lemma : forall m p, policy_ctor m = Some p ->
+  p = m /\ Forall (fun r => is_dist_tol epsS r) p.
+Proof.
+  intros m p H. unfold policy_ctor in H. destruct (is_prob_matrixb m) eqn:E; [| discriminate].
+  inversion H; subst. split; [reflexivity|]. apply Forall_forall. intros r Hr.
+  unfold is_prob_matrixb in E. rewrite forallb_forall in E. specialize (E r Hr).
+  unfold prob_rowb in E. apply andb_true_iff in E. destruct E as [En Es].
+  split.
+  - unfold nonneg. apply Forall_forall. intros x Hx. unfold nonnegb in En. rewrite forallb_forall in En.
+    apply Qle_bool_iff. apply En. exact Hx.
+  - apply eqSmall_bounds. exact Es.
+Qed.
+
+Lemma policy_ctor_rejects_lemma : forall m r, In r m -> (~ nonneg r \/ epsS < qsum r - 1 \/ qsum r - 1 < - epsS) ->
+  policy_ctor m = None.
+Proof.
+  intros m r Hin Hbad. unfold policy_ctor. destruct (is_prob_matrixb m) eqn:E; [| reflexivity]. exfalso.
+  destruct (policy_ctor_lemma m m) as [_ Hall]; [unfold policy_ctor; rewrite E; reflexivity|].
+  pose proof (proj1 (Forall_forall _ _) Hall r Hin) as [N [L U]].
+  destruct Hbad as [B|[B|B]]; [apply B; exact N| lra| lra].
 Qed.
 
 (* ---------------------------------------------------------------- MDP softmax table, row by row *)
